@@ -30,6 +30,64 @@ def cfg_fn(rng, ctx):
     return gen.Cfg(depth=depth, kinds=KINDS, tuple_addr=0.4)
 
 
+OFF_SUPPORT = {"uniform": 5.0, "exponential": -1.0, "gamma": -1.0, "beta": 2.0}
+
+
+def h_offsupport(ctx, plan, case, rec, rng, nk, hist, route, guarded):
+    """A trace holding a zero-density choice (a constraint outside the support): projections
+    that do not select that choice must still be the finite sum of the selected log-densities
+    (project(none) == 0), eagerly and under jit."""
+    import jax
+    import numpy as np
+    from vf import common, engine
+    from vf.engine import Issue
+    from vf.prog import obs
+
+    cands = []
+    for st in case.node.sites():
+        if st.dist.name in OFF_SUPPORT and st.switchy is None:
+            for pth, _ in st.paths():
+                cands.append((pth, st.dist.name))
+    if not cands:
+        return None
+    pth, dname = cands[int(rng.integers(len(cands)))]
+    vals = {pth: np.float64(OFF_SUPPORT[dname])}
+    hist.append(f"importance with an off-support value at {pth} ({dname}={OFF_SUPPORT[dname]}) then projections")
+    out = guarded("importance", lambda: engine.op_importance(case, nk(), vals, rec.args))
+    if out is None or out[0] is None:
+        return None
+    r0 = out[0]
+    if pth not in r0.live() or np.isfinite(r0.env.terms[pth]):
+        return None
+    issues = []
+    spath = obs.static_of(pth)
+    terms = [("none",), ("not", ("at", spath)), ("and", ("all",), ("not", ("at", spath)))]
+    for term in terms:
+        sel = obs.build_selection(term)
+        exp = sum(lp for q, lp in r0.env.terms.items() if obs.sel_contains(term, obs.static_of(q)))
+        if not np.isfinite(exp):
+            continue
+        for mode in ("eager", "jit"):
+            try:
+                if mode == "eager":
+                    w = r0.tr.project(engine.key(nk()), sel)
+                else:
+                    w = jax.jit(lambda k, t: t.project(k, sel))(engine.key(nk()), r0.tr)
+            except Exception as e:
+                mech = common.exc_mechanism(e)
+                if _drive.rejection_allowed("project", mech):
+                    ctx.reject("project:" + mech)
+                    break
+                issues.append(Issue("proj.raises", f"project raised {mech}", mech))
+                break
+            w = float(np.asarray(w))
+            ctx.count("offsupport_projections")
+            if not common.close(w, exp, terms=max(1, len(r0.env.terms))):
+                issues.append(Issue("proj.value", f"trace holds a zero-density choice at {pth}; project({term}) [{mode}] = {w}, expected the finite sum {exp} of the selected log-densities", "zero-density-choice-unselected," + mode))
+    route("project", issues)
+    return None
+
+
 def nontrivial(case, hist):
     return any("project" in h and "('at'" in h for h in hist) and any(k not in ("Dist", "Static") for k in case.kinds)
 
@@ -37,7 +95,8 @@ def nontrivial(case, hist):
 PLAN = _drive.Plan(
     "C10", cfg_fn,
     clauses={"proj.*"},
-    ops={"project": 2, "project_ids": 2, "update": 1},
+    ops={"project": 2, "project_ids": 2, "update": 1, "offsupport": 1.5},
+    extra_ops={"offsupport": h_offsupport},
     n_cases=(400, 3000), n_ops=(4, 8), nontrivial=nontrivial,
     always=(),
     exc_is_violation=True,
